@@ -33,6 +33,10 @@ PROPS = {
         units=['nint', 'nnumcmp'],
         not_covered='dictionary operations (std HashMap + closures in lib.rs); Dict-inside-key arm',
     ),
+    'C11': dict(
+        units=['rangeu'],
+        not_covered='default Stream::{len,force,pythonic_slice,reversed}, lazy adaptors, combinatorial streams, infinite streams',
+    ),
     'C12': dict(
         units=['istype'],
         not_covered='pattern matching, switch, destructuring, annotation enforcement on assignment paths, satisfying types',
@@ -61,6 +65,8 @@ TEXT = {
             'function of its exact value, and a lemma shows key-equal numbers (== or both NaN) write identical words.'),
     'C10': ('Verus proves, for every isize index and every slice length, that the index/slice kernels of core.rs compute '
             'Python\'s index/clamp/slice functions and cannot overflow or panic.'),
+    'C11': ('Verus proves for integer ranges with any step sign and any magnitude that the emptiness test, next/peek and the '
+            'closed-form len() agree with the iteration that next() performs.'),
     'C12': ('Verus proves the type-predicate kernel: is_type(type_of(v), v) and is_type(anything, v) hold for every value, '
             'number accepts every numeric level, and builtin types classify by constructor.'),
 }
